@@ -127,6 +127,9 @@ func Execute(t *testing.T, sc *Scenario, seed uint64, plan, sched *sim.Tape, wan
 			})
 		}()
 		debug.SetGCPercent(gcOff)
+		if pb, ok := r.(interface{ Post(s *sim.Sim) }); ok && !s.Failed() {
+			pb.Post(s)
+		}
 		res.Violations = s.Violations()
 		res.Steps = s.Steps()
 		res.SimNanos = int64(s.End)
